@@ -11,6 +11,7 @@ CONSTANTS
   DecFails = {FALSE}
   MaxCb = 0
   MaxTrig = 2
+  MaxFire = 3
   CbOn = {}
   TimerOn = {1}
   Ops = {"request", "complete", "abort", "cabort", "qabort", "gabort", "settle"}
